@@ -15,3 +15,4 @@ import RepidProofs.Props.C10
 import RepidProofs.Props.C03
 import RepidProofs.Props.C07
 import RepidProofs.Props.C08
+import RepidProofs.Props.C11
